@@ -10,7 +10,7 @@ from ktverif.framework import Failure
 
 TRUSTED = ["the oracle's own copy of the search space at the time the trial is issued (trial.hyperparameters.space) is the reference for 'active' and 'domain'",
            "Bayesian trials use the real Gaussian process; quick tier keeps them few"]
-ASSUMPTIONS = ["names are distinct within a search space (the coverage theorem's hypothesis; shared names are C13's subject)"]
+ASSUMPTIONS = ["the coverage theorem assumes distinct names; the implementation-level check also runs spaces in which one name is declared in two conditional branches (20% of the cases): a name carries a value iff one of its entries is active, an entry being active iff its whole chain of conditions holds"]
 
 
 def gen_space(rng, hps, prefix="", depth=0, parents=None):
@@ -39,6 +39,28 @@ def gen_space(rng, hps, prefix="", depth=0, parents=None):
             with hps.conditional_scope(n, vs):
                 gen_space(rng, hps, prefix + "c%d" % len(declared), depth + 1)
     return declared
+
+
+def gen_shared_space(rng, hps):
+    """one name declared in two conditional branches, with a further conditional scope below it in one of them: an entry is
+    active only if its whole chain of conditions holds"""
+    ks = rng.sample(["p", "q", "r"], rng.randint(2, 3))
+    hps.Choice("m", ks)
+    branches = ks[: rng.randint(2, len(ks))]
+    u_bool = rng.random() < 0.5          # the shared name is declared the same way in every branch
+    for i, k in enumerate(branches):
+        with hps.conditional_scope("m", [k]):
+            if u_bool: hps.Boolean("u")
+            else: hps.Choice("u", [0, 1, 2])
+            dom = list([h for h in hps.space if h.name == "u"][-1].values)
+            if i == 0 or rng.random() < 0.4:
+                with hps.conditional_scope("u", rng.sample(dom, rng.randint(1, max(1, len(dom) - 1)))):
+                    hps.Float("w%d" % i, 0.0, 1.0, step=0.25)
+                    if rng.random() < 0.4:
+                        hps.Int("x%d" % i, 1, 3)
+            if rng.random() < 0.5:
+                hps.Int("y%d" % i, 0, 2)
+    return ["m"]
 
 
 def in_domain(hp, v):
@@ -70,6 +92,11 @@ def in_domain(hp, v):
     return None if v == hp.value else "value %r is not the fixed value %r" % (v, hp.value)
 
 
+def entry_active(hp, vals):
+    """an entry is active iff EVERY condition of its chain holds (judged here, not by HyperParameters.is_active)"""
+    return all(c.name in vals and any(vals[c.name] == x for x in c.values) for c in hp.conditions)
+
+
 def check_trial(t):
     """the property on one issued trial; returns (clause, message) or None"""
     hps = t.hyperparameters
@@ -78,7 +105,7 @@ def check_trial(t):
     for hp in hps.space:
         names.setdefault(hp.name, []).append(hp)
     for n, entries in names.items():
-        active = any(hps.is_active(hp) for hp in entries)
+        active = any(entry_active(hp, vals) for hp in entries)
         if active and n not in vals:
             return "missing", "active hyperparameter %s has no value (values %r)" % (n, vals)
         if not active and n in vals:
@@ -86,7 +113,7 @@ def check_trial(t):
     for n, v in vals.items():
         if n not in names:
             return "unknown-name", "value for %s which is not in the search space" % n
-        act = [hp for hp in names[n] if hps.is_active(hp)] or names[n]
+        act = [hp for hp in names[n] if entry_active(hp, vals)] or names[n]
         msgs = [in_domain(hp, v) for hp in act]
         if all(msgs):
             return "domain", "%s (%s): %s" % (n, type(act[0]).__name__, msgs[0])
@@ -100,7 +127,10 @@ def run_case(cfg):
     from keras_tuner.tuners import randomsearch, gridsearch, hyperband, bayesian
     rng = random.Random(cfg["hseed"])
     hps = hpm.HyperParameters()
-    gen_space(random.Random(cfg["space_seed"]), hps)
+    if cfg.get("shared"):
+        gen_shared_space(random.Random(cfg["space_seed"]), hps)
+    else:
+        gen_space(random.Random(cfg["space_seed"]), hps)
     late_seed = cfg["space_seed"] + 1
     obj = kt.Objective("score", cfg["direction"])
     common = dict(objective=obj, seed=cfg["seed"], hyperparameters=hps, max_retries_per_trial=cfg["max_retries"], max_consecutive_failed_trials=99)
@@ -152,6 +182,7 @@ def gen(rng):
     cfg["grow"] = rng.random() < 0.35
     cfg["nsteps"] = rng.randint(10, 40)
     cfg["grow_after"] = rng.choice([0, 0, 1, 3, 6])
+    cfg["shared"] = rng.random() < 0.2
     if rng.random() < 0.25:
         # values carried over from trials issued before the space grew: Hyperband promotions, retries, Bayesian/grid successors
         cfg["kind"] = rng.choice(["hyperband", "hyperband", "grid", "random"]); cfg["grow"] = True; cfg["grow_after"] = rng.randint(2, 10)
